@@ -41,7 +41,7 @@ def _params(tier):
     return out
 
 
-@harness(P, params=_params, max_steps=400000,
+@harness(P, per_job=True, params=_params, max_steps=400000,
          bounds="blob values: key identifier with version/flags/L0/L1/L2 symbolic in [0,2^32), symbolic root key id, key_info of sizes {0,1,32,36,127,128,255,256,520,800} (symbolic "
          "content), names from {empty, ASCII, BMP, non-BMP}; 4 SID shapes (1..15 sub-authorities, extreme values); enc_cek 40 symbolic bytes; encrypted content of listed lengths "
          "across the DER length-form boundaries (0,1,16,127,128,255,256,65535,65536 quick; more incl. 65537 thorough) with symbolic first/last octets; GCM parameters present (12 symbolic "
